@@ -812,7 +812,7 @@ def stream_di(ctx: Ctx, w: World) -> Stream:
 	for name, ops in load_corpus():
 		full = [('reset',), *ops]
 		cases.append(({'kind': 'corpus', 'name': name, 'ops': full}, [op_line(w, o) for o in full], run_real(w, full)))
-	n = ctx.scale(700, 9000)
+	n = ctx.scale(2500, 9000)
 	max_ops = ctx.scale(30, 200)
 	for i in range(n):
 		ops = [('reset',), *gen_case(w, rng, max_ops if i % 4 else max(8, max_ops // 3), search=False)]
@@ -903,7 +903,7 @@ def search_reference(ctx: Ctx, w: World) -> SearchResult:
 	seen: set[str] = set()
 	per_key: Counter[str] = Counter()
 	hist: Counter[str] = Counter()
-	n = ctx.scale(900, 12000)
+	n = ctx.scale(3000, 9000)
 	max_ops = ctx.scale(30, 200)
 	todo: list[tuple[str, list[tuple]]] = [(f'corpus:{name}', ops) for name, ops in load_corpus()]
 	for i in range(n):
@@ -963,10 +963,12 @@ STATEMENTS = {
 	'combine_frame': 'an op leaves every container it is not addressed to exactly as it was (operands of combine/_clone keep behaving as before, and vice versa)',
 	'lazy_materialise': 'a definition resolved in a clone is materialised there only; the original still holds the unresolved definition and later creates its own, younger instance',
 	'unknown': 'when can_resolve answers False, resolve raises ValueError and changes nothing',
+	'unknown_invoke': 'invoke of a factory whose first annotated parameter cannot be resolved, without remaining arguments, raises ValueError on the first call for its qualified name (any state)',
 	'invoke_fill_statement': '(def) invoke curries exactly the leading resolvable annotated parameters of the factory itself, raises ValueError unless the remaining arguments match the remaining annotated parameters one to one, else calls the factory',
 	'invoke_alias_counterexample': 'FALSE: annotation cache keyed by qualified name -> second closure of one def curried with the first one\'s annotations',
 	'invoke_second_counterexample': 'FALSE: signature check only on the first call per qualified name -> later mismatched call returns an object',
 	'invoke_extra_counterexample': 'FALSE: surplus remaining arguments raise IndexError instead of ValueError',
+	'fuel_sufficient': 'fuel is only a device: if the bindings of the history respect a rank (acyclic factory graph, coherent qualified names), resolve/invoke with more fuel than the rank never yields RecursionError',
 	'invoke_fill_partial': 'for histories whose factories agree on annotations per qualified name: the code equals the law on every call for which the law does not demand ValueError, and (ValueError included) on first calls unless the code raises IndexError',
 }
 
